@@ -301,6 +301,9 @@ func treeCase(d *lib.Driver, n *node) error {
 		if mixC && (p.steps[0] == "decompose" || p.steps[0] == "dup" || p.steps[0] == "altAlter") {
 			continue // a generic container takes the Simplifier route of decompose/alter: not modelled
 		}
+		if mixC && p.name() == "generify+nodeAlter" {
+			continue // Generify hands a generic container on as it is, Alter then rewrites the input's own cell
+		}
 		variants := optVariants
 		if !p.opts {
 			variants = optVariants[:1]
@@ -602,6 +605,9 @@ func safeCase(d *lib.Driver, j job) (err error) {
 			} else {
 				rp["tree"] = j.n.text()
 			}
+			if os.Getenv("VERIF_TRACE") != "" {
+				debug.PrintStack()
+			}
 			add("violation", "panic:case", "reading the values of this case panicked: "+fmt.Sprint(r), rp, "")
 		}
 	}()
@@ -783,7 +789,7 @@ func runReplay() {
 			fmt.Fprintln(os.Stderr, "bad tree in replay:", err)
 			os.Exit(3)
 		}
-		if err := treeCase(d, n); err != nil {
+		if err := safeCase(d, job{n: n}); err != nil {
 			fmt.Fprintln(os.Stderr, err)
 			os.Exit(3)
 		}
